@@ -39,6 +39,11 @@ ASSUMPTIONS = [
     'Format.fmtIter: full grammar, Python key equality, unhashable-key TypeError); that the two tree models agree on '
     'the simple grammar where no keys collide numerically is VALIDATED (c08 `basic_agrees`, c09 `faithful:agrees`), '
     'not proved',
+    'yaml stream: the TaggedScalar back-reference the loader keeps on a scalar !jsonify (used by to_yaml, visible in '
+    'repr() only) is dropped before formatting',
+    'leaf objects with a non-trivial truth value (bool() / len() raise, are False, have an effect): the models have no '
+    'truth value for an obj leaf at all (fmt_nonstring_leaf_id / fmtHeap_leaf_identity hold for every obj); that the '
+    'implementation never evaluates one is the monitor leaf-evaluated (counter on the object)',
     'faithful tree model vs implementation: skipped where the tree value cannot say it (frozenset / bytearray as key '
     'or member, EqOpaque objects that are == by group, which of two ==-equal set members survives)',
 ]
@@ -299,6 +304,14 @@ def run(env, res):
                 'documents with anchors and tags loaded by pypyr.yaml (CommentedMap/CommentedSeq), random DAG '
                 'heaps with sharing and with equal-but-distinct hashable siblings (tuples / frozensets over 1, 1.0, True, '
                 '0, 0.0, False, 2, 2.0, EqOpaque objects that are == but not `is`, sometimes the same object twice); '
+                'special tags with a FALSY payload (empty !sic, !jsonify of [] {} 0 0.0 false null \'\' () and empty '
+                'CommentedSeq / CommentedMap) at every position: top level, list / tuple / dict-value member, the same tag '
+                'twice, inside a !jsonify payload, target of {k} {k:ff} {k:rf} x{k}y, inside a context list / dict, in yaml '
+                'text (monitor: at its position the result holds what tag.get_value(context) gives, asked of the tag '
+                'directly); leaf objects with a non-trivial truth value (bool() raises / is False / has an effect, len() has '
+                'an effect / raises) on their own, in every container class, shared, as context values reached by {k} '
+                '{k:ff} {k:rf} and context containers (monitor leaf-evaluated: the object counts every bool() / len() on '
+                'it; 6 % of random leaves, 30 % of random special tags falsy); '
                 'non-trivial = distinct case that reached both sides; F9 classes: monitors only; stream implonly-py '
                 '(IMPLEMENTATION-ONLY, no model side): values holding arbitrary-Python !py strings with := at top '
                 'level / in comprehensions / in lambdas, binding new names, context keys and mutable context objects; '
